@@ -6,6 +6,8 @@ the reading of the constructed grid table.  Core only.
 import AutomataVerif.Model.NFAEdit
 import AutomataVerif.Proofs.NFATable
 
+open AV.AL
+
 namespace AV
 namespace NFA
 namespace EditT
